@@ -27,7 +27,7 @@ class Inst:
                  tier='quick', pre='', loop_contracts=None, nondet_volatile=False, solvers=('minisat',),
                  timeout=120, unwind=None, extra_cbmc=(), also_enforce=(), note='', kind='proof',
                  replay=None, expect_compile_error=False, opts=None, defines=(), root_pick=None,
-                 canary=True, object_bits=None, globals_init=None, extra_replace=(), pre_defines='', ret='void', may_not_compile=False, facts=None):
+                 canary=True, object_bits=None, globals_init=None, extra_replace=(), pre_defines='', ret='void', may_not_compile=False, facts=None, post_protos=''):
         self.name = name
         self.params = params          # C++ parameter list of the snippet
         self.expr = expr              # C++ statement(s) using the operation under contract
@@ -54,6 +54,7 @@ class Inst:
         self.canary = canary
         self.object_bits = object_bits
         self.globals_init = globals_init
+        self.post_protos = post_protos            # C text emitted after the prototypes (may name extracted functions, $FTABLE)
         self.facts = facts or {}                  # macro -> (C++ constant expression, C type): computed by g++ (B-facts)
         self.may_not_compile = may_not_compile   # the property quantifies over programs that compile; a rejected snippet is then no instance
         self.ret = ret                            # return type of the snippet function (lemma clients return a value)
@@ -376,6 +377,8 @@ class Unit:
         if it.pre:
             out.append(subst(it.pre, names, root=rootc))
         out.append('\n'.join(protos))
+        if it.post_protos:
+            out.append(subst(it.post_protos, names, root=rootc))
         contract = subst(clauses_text(it.contract), names)
         out.append('%s\n%s\n%s' % (em.sig_text[root['id']], contract, self.loops(em, it, root, em.fn_text[root['id']])))
         for fid in order:
@@ -391,6 +394,24 @@ class Unit:
                 raise ExtractError('$G(%s): %d matching globals' % (m.group(1), len(cands)))
             return cands[0]
         text = re.sub(r'\$G\(([A-Za-z0-9_]+)\)', gsub, text)
+
+        def ftable(m):
+            # $FTABLE(name): C names of the instantiations of function template <name> reachable from the root,
+            # ordered by their first (integral) template argument - e.g. the 64 callback_trampoline<N,...>
+            rows = []
+            for fid in list(em.needed) + [f for f in em.leaves]:
+                fn = tu.funcs.get(fid)
+                if fn is None or fn.get('name') != m.group(1):
+                    continue
+                ta = [c for c in inner(fn) if c.get('kind') == 'TemplateArgument']
+                if not ta or 'value' not in ta[0]:
+                    raise ExtractError('$FTABLE(%s): instantiation without integral first template argument' % m.group(1))
+                rows.append((int(ta[0]['value']), em.fname(fn)))
+            rows.sort()
+            if [r[0] for r in rows] != list(range(len(rows))) or not rows:
+                raise ExtractError('$FTABLE(%s): instantiations are not 0..n-1' % m.group(1))
+            return ', '.join('(void *)%s' % r[1] for r in rows)
+        text = re.sub(r'\$FTABLE\(([A-Za-z0-9_]+)\)', ftable, text)
         cfile = os.path.join(self.dir, it.name + '.c')
         open(cfile, 'w').write(text)
         self.emitted[it.name] = {
@@ -421,7 +442,7 @@ class Unit:
             s += '#define %s\n' % d.replace('=', ' ', 1)
         for i in self.includes:
             s += '#include "%s"\n' % i
-        s += self.extra_cpp + '\n#include <cstdio>\n#include <array>\n#include <utility>\n#include <type_traits>\nint main(){\n'
+        s += self.extra_cpp + '\n#include <cstdio>\n#include <array>\n#include <utility>\n#include <type_traits>\nusing namespace rlbox; using namespace rlbox::detail;\nint main(){\n'
         for k, (expr, cty) in facts.items():
             s += '  std::printf("#define %s ((%s)%%lluULL)\\n", (unsigned long long)(%s));\n' % (k, cty, expr)
         s += '  return 0;\n}\n'
